@@ -566,13 +566,48 @@ def r19_5(rep: Report) -> None:
         raise AnalysisError('to_iso_datetime: no isoformat()/strftime() rendering found')
 
 
+def r19_6(rep: Report) -> None:
+    """R19.6  a time delta is taken apart through all three of its fields: a function that reads `x.seconds`
+    (the seconds *within the day*, 0..86399) also reads `x.days` - and `x.microseconds` - of the same value, or
+    uses `total_seconds()`.  `.seconds` alone wraps every 24 hours: a timecode of a stream that has been
+    live for more than a day starts again at 0."""
+    rid = 'R19.6'
+    rep.rule(rid, 'timedelta.seconds is never read without .days of the same value', floor=0)
+    n = 0
+    for rel in rep.repo.py_files('dashlive'):
+        tree = rep.repo.tree(rel)
+        for fn in [x for x in ast.walk(tree) if isinstance(x, (ast.FunctionDef, ast.AsyncFunctionDef))]:
+            reads: dict[str, list[ast.Attribute]] = {}
+            for x in ast.walk(fn):
+                if isinstance(x, ast.Attribute) and x.attr == 'seconds' and isinstance(x.ctx, ast.Load):
+                    par = getattr(x, '_parent', None)
+                    if isinstance(par, ast.keyword):
+                        continue
+                    reads.setdefault(norm(x.value), []).append(x)
+            for base, sites in sorted(reads.items()):
+                attrs_ = {x.attr for x in ast.walk(fn) if isinstance(x, ast.Attribute) and norm(x.value) == base}
+                if base in ('self', 'cls') or attrs_ - {'days', 'seconds', 'microseconds', 'total_seconds'}:
+                    continue                # a record with a field called seconds (hours / minutes next to it), not a timedelta
+                n += 1
+                construct = f'{rel}::{fn.name}'
+                attrs = {x.attr for x in ast.walk(fn) if isinstance(x, ast.Attribute) and norm(x.value) == base}
+                if 'days' in attrs:
+                    rep.ok(rid, construct, f'{base}.seconds with {base}.days')
+                else:
+                    rep.fail(rid, construct, f'{base}.seconds with {base}.days',
+                             f'`{norm(sites[0])}` is the seconds within the day; the function never reads `{base}.days`, so every '
+                             'whole day of the delta is dropped: the result wraps at 24 hours (a timecode of a stream live for '
+                             'more than a day, a duration of more than a day)', sites[0])
+    rep.extra['timedelta_seconds_reads'] = n      # none at all is fine: total_seconds() / a helper is used instead
+
+
 def lift_into(rep: Report, rid: str, rules: tuple[str, ...], what: str) -> None:
     """other properties rest on the same formatter / parser clauses (C05: every xs:dateTime and xs:duration
     attribute is lexically valid; C08: an explicit start names the instant it was given as): run this
     property's rules on the same tree and report their unlisted findings under the other property's rule id"""
     from ..core import load_known, match_known
     sub = Report('C19', rep.repo, 'quick')
-    fns = {'R19.1': r19_1, 'R19.2': r19_2, 'R19.3': r19_3, 'R19.4': r19_4, 'R19.5': r19_5}
+    fns = {'R19.1': r19_1, 'R19.2': r19_2, 'R19.3': r19_3, 'R19.4': r19_4, 'R19.5': r19_5, 'R19.6': r19_6}
     for r_ in rules:
         fns[r_](sub)                 # each rule function registers its own rule; only the lifted ones run
     known, _ = load_known('C19')
@@ -597,3 +632,4 @@ def analyse(rep: Report) -> None:
     r19_3(rep)
     r19_4(rep)
     r19_5(rep)
+    r19_6(rep)
